@@ -205,6 +205,13 @@ impl<P: PageTableFrameMapping> Mapper<Size1GiB> for MappedPageTable<'_, P> {
         if p3[page.p3_index()].is_unused() {
             return Err(FlagUpdateError::PageNotMapped);
         }
+        // An entry that points to a level 2 table is not a 1GiB mapping.
+        if !p3[page.p3_index()]
+            .flags()
+            .contains(PageTableFlags::HUGE_PAGE)
+        {
+            return Err(FlagUpdateError::PageNotMapped);
+        }
         p3[page.p3_index()].set_flags(flags | PageTableFlags::HUGE_PAGE);
 
         Ok(MapperFlush::new(page))
@@ -250,6 +257,10 @@ impl<P: PageTableFrameMapping> Mapper<Size1GiB> for MappedPageTable<'_, P> {
         let p3_entry = &p3[page.p3_index()];
 
         if p3_entry.is_unused() {
+            return Err(TranslateError::PageNotMapped);
+        }
+        // An entry that points to a level 2 table is not a 1GiB mapping.
+        if !p3_entry.flags().contains(PageTableFlags::HUGE_PAGE) {
             return Err(TranslateError::PageNotMapped);
         }
 
@@ -319,6 +330,13 @@ impl<P: PageTableFrameMapping> Mapper<Size2MiB> for MappedPageTable<'_, P> {
         if p2[page.p2_index()].is_unused() {
             return Err(FlagUpdateError::PageNotMapped);
         }
+        // An entry that points to a level 1 table is not a 2MiB mapping.
+        if !p2[page.p2_index()]
+            .flags()
+            .contains(PageTableFlags::HUGE_PAGE)
+        {
+            return Err(FlagUpdateError::PageNotMapped);
+        }
 
         p2[page.p2_index()].set_flags(flags | PageTableFlags::HUGE_PAGE);
 
@@ -356,6 +374,10 @@ impl<P: PageTableFrameMapping> Mapper<Size2MiB> for MappedPageTable<'_, P> {
         if p3_entry.is_unused() {
             return Err(FlagUpdateError::PageNotMapped);
         }
+        // A 1GiB mapping is not a parent table entry.
+        if p3_entry.flags().contains(PageTableFlags::HUGE_PAGE) {
+            return Err(FlagUpdateError::ParentEntryHugePage);
+        }
 
         p3_entry.set_flags(flags);
 
@@ -378,6 +400,10 @@ impl<P: PageTableFrameMapping> Mapper<Size2MiB> for MappedPageTable<'_, P> {
         let p2_entry = &p2[page.p2_index()];
 
         if p2_entry.is_unused() {
+            return Err(TranslateError::PageNotMapped);
+        }
+        // An entry that points to a level 1 table is not a 2MiB mapping.
+        if !p2_entry.flags().contains(PageTableFlags::HUGE_PAGE) {
             return Err(TranslateError::PageNotMapped);
         }
 
@@ -485,6 +511,10 @@ impl<P: PageTableFrameMapping> Mapper<Size4KiB> for MappedPageTable<'_, P> {
         if p3_entry.is_unused() {
             return Err(FlagUpdateError::PageNotMapped);
         }
+        // A 1GiB mapping is not a parent table entry.
+        if p3_entry.flags().contains(PageTableFlags::HUGE_PAGE) {
+            return Err(FlagUpdateError::ParentEntryHugePage);
+        }
 
         p3_entry.set_flags(flags);
 
@@ -507,6 +537,10 @@ impl<P: PageTableFrameMapping> Mapper<Size4KiB> for MappedPageTable<'_, P> {
 
         if p2_entry.is_unused() {
             return Err(FlagUpdateError::PageNotMapped);
+        }
+        // A 2MiB mapping is not a parent table entry.
+        if p2_entry.flags().contains(PageTableFlags::HUGE_PAGE) {
+            return Err(FlagUpdateError::ParentEntryHugePage);
         }
 
         p2_entry.set_flags(flags);
